@@ -496,7 +496,11 @@ func (x *Rewards) UnmarshalCBOR(data []byte) error {
 	}
 	// third is the data DataFrame
 	if data, ok := arr.Get(2); ok {
-		dataArr := _array(data.([]interface{}))
+		dataList, ok := data.([]interface{})
+		if !ok {
+			return fmt.Errorf("expected data to be []interface{}, got %T", data)
+		}
+		dataArr := _array(dataList)
 		var d DataFrame
 		if err := d.fromCBORArray(dataArr); err != nil {
 			return fmt.Errorf("failed to decode metadata: %w", err)
